@@ -2,6 +2,10 @@ use serde::{Deserialize, Serialize};
 
 pub type Error = serde_bencode::Error;
 
+/// Maximum nesting of lists and dictionaries accepted in an incoming message. Well formed KRPC
+/// messages nest only three levels deep, this leaves plenty of room for unknown extensions.
+const MAX_DEPTH: usize = 32;
+
 #[inline]
 pub(crate) fn encode<T>(value: &T) -> Result<Vec<u8>, Error>
 where
@@ -15,5 +19,80 @@ pub(crate) fn decode<'de, T>(bytes: &'de [u8]) -> Result<T, Error>
 where
     T: Deserialize<'de>,
 {
+    validate(bytes)?;
     serde_bencode::from_bytes(bytes)
+}
+
+/// Checks that the first bencoded value in `bytes` can be safely handed to `serde_bencode`.
+///
+/// `serde_bencode` allocates the declared length of a byte string before reading it and recurses
+/// once per nesting level, so a tiny malicious datagram (e.g., `d1:t99999999999:`) could otherwise
+/// abort the whole process. This walks the input once, without allocating or recursing, and
+/// rejects byte strings that are longer than the rest of the input and values nested deeper than
+/// `MAX_DEPTH`. Everything else is left for the deserializer to accept or reject.
+fn validate(bytes: &[u8]) -> Result<(), Error> {
+    let mut depth = 0usize;
+    let mut pos = 0usize;
+
+    while let Some(&byte) = bytes.get(pos) {
+        pos += 1;
+
+        match byte {
+            b'l' | b'd' => {
+                depth += 1;
+
+                if depth > MAX_DEPTH {
+                    return Err(Error::InvalidValue("Nesting too deep".to_string()));
+                }
+            }
+            b'e' => depth = depth.saturating_sub(1),
+            b'i' => loop {
+                match bytes.get(pos) {
+                    Some(b'e') => {
+                        pos += 1;
+                        break;
+                    }
+                    Some(_) => pos += 1,
+                    None => return Err(Error::EndOfStream),
+                }
+            },
+            b'0'..=b'9' => {
+                let mut len = usize::from(byte - b'0');
+
+                loop {
+                    match bytes.get(pos) {
+                        Some(b':') => {
+                            pos += 1;
+                            break;
+                        }
+                        Some(digit @ b'0'..=b'9') => {
+                            len = len
+                                .checked_mul(10)
+                                .and_then(|len| len.checked_add(usize::from(digit - b'0')))
+                                .ok_or(Error::EndOfStream)?;
+                            pos += 1;
+                        }
+                        Some(_) => {
+                            return Err(Error::InvalidValue("Invalid string length".to_string()));
+                        }
+                        None => return Err(Error::EndOfStream),
+                    }
+                }
+
+                if len > bytes.len() - pos {
+                    return Err(Error::EndOfStream);
+                }
+
+                pos += len;
+            }
+            _ => return Err(Error::InvalidValue("Invalid character".to_string())),
+        }
+
+        // The deserializer reads only the first value and ignores whatever follows it.
+        if depth == 0 {
+            break;
+        }
+    }
+
+    Ok(())
 }
